@@ -30,8 +30,8 @@ if _plan_path:
     import iodata.api
     import iodata.utils
 
-    iodata.utils.open = _disk.open
-    iodata.api.open = _disk.open
+    _inst = _seams.Installed(_disk)
+    _inst.__enter__()  # open() seams of iodata.utils / iodata.api plus os.remove/rename/exists for simulated paths
 
     def _dump_result():
         out = {
